@@ -127,6 +127,13 @@ OUTPUTS = [lambda: out_display(3), lambda: out_stream('epoch 1: 10%\repoch 1: 50
            lambda: {'output_type': 'display_data', 'metadata': {}, 'data': {}}]
 
 
+def rewrapped(v, rnd):
+    "the same base64 payload written differently (always a different string): with / without a trailing newline, wrapped into 40-column lines"
+    flat = v.replace('\n', '')
+    forms = [flat, flat + '\n', '\n'.join(flat[i:i + 40] for i in range(0, len(flat), 40)) + '\n']
+    return rnd.choice([f for f in forms if f != v])
+
+
 def code_cell(source='x = 1\n', outputs=(), ec=None, metadata=None):
     return {'cell_type': 'code', 'source': source, 'outputs': [copy.deepcopy(o) for o in outputs],
             'execution_count': ec, 'metadata': copy.deepcopy(metadata) if metadata else {}}
@@ -380,8 +387,12 @@ def apply_edit(nb, op, rnd, where=None):
                             o['data'][mk] = o['data'][mk] + rnd.choice(['$b$\n', '%'])
                     if isinstance(o['data'].get('application/json'), int) and rnd.random() < 0.4:
                         o['data']['application/json'] += 1          # a different number (never a Python-equal one: finding C02-pyeq)
-                    if 'image/png' in o['data'] and rnd.random() < 0.5:
-                        o['data']['image/png'] = B64_2 if o['data']['image/png'] == B64 else B64
+                    u = rnd.random()
+                    if 'image/png' in o['data'] and u < 0.4:
+                        o['data']['image/png'] = B64_2 if o['data']['image/png'].replace('\n', '') == B64 else B64
+                    elif 'image/png' in o['data'] and u < 0.8:
+                        # the same payload written differently: a trailing newline, or wrapped into lines (another front end saved it)
+                        o['data']['image/png'] = rewrapped(o['data']['image/png'], rnd)
             else:
                 c['outputs'].append(nbformat.from_dict(out_stream('fresh\n')))
     elif op == 'metadata_flag':
@@ -406,9 +417,12 @@ def apply_edit(nb, op, rnd, where=None):
                     k = sorted(att)[0]
                     cur = att[k].get('image/gif', GIF56)
                     att[k] = nbformat.from_dict({'image/gif': cur[:30] + ('B' if cur[30] != 'B' else 'C') + cur[31:]})
-                elif r < 0.4 and att:
+                elif r < 0.3 and att:
                     k = sorted(att)[0]
                     att[k] = nbformat.from_dict({'image/png': B64_2 if att[k].get('image/png') == B64 else B64})
+                elif r < 0.45 and att and 'image/png' in att[sorted(att)[0]]:
+                    k = sorted(att)[0]
+                    att[k] = nbformat.from_dict({'image/png': rewrapped(att[k]['image/png'], rnd)})
                 elif r < 0.7:
                     att['h%d.png' % rnd.randint(0, 3)] = nbformat.from_dict({'image/png': B64})
                 elif att:
@@ -531,6 +545,13 @@ def concurrent_insert_triple(b, rnd):
             rx['source'] = rx['source'] + '# remote tweak\n' if rx['source'].endswith('\n') or not rx['source'] else rx['source'] + '\n# remote tweak\n'
         if rnd.random() < 0.3:
             lx['metadata'] = nbformat.from_dict({'tags': ['l']})
+        if lx.get('attachments') and rnd.random() < 0.6:
+            # the two versions of the shared cell differ in their attachments: one more file on one side, or another image under the same name
+            if rnd.random() < 0.6:
+                rx['attachments']['g.png'] = nbformat.from_dict({'image/png': B64_2})
+            else:
+                name = sorted(rx['attachments'])[0]
+                rx['attachments'][name] = nbformat.from_dict({'image/png': B64_2})
         tail = [fresh(rnd.choice(pool), 'T')] if rnd.random() < 0.3 else []
         lcells, rcells = lblock + [lx] + tail, rblock + [rx] + [copy.deepcopy(t) for t in tail]
         if rnd.random() < 0.3:
